@@ -1,2 +1,87 @@
--- line-protocol model driver for C02 (stub)
-def main : IO Unit := IO.println "stub C02"
+/- Line-protocol model driver for C02.
+   Translation validation (program built up from the lines written by harness/C02/ser.c):
+     prog <id> | def <idx> <arity> <min> <max> <slots> <vararg> <structarg> | code <hexwords..> | consts <value tokens..>
+     defs <idx..> | envs <ints..> | smap <line col ..> | bitset <01-string | - | e>        -> "ok"
+     run <id> <e0>   -> "<final>\t<trace line>\t<trace line>..."  with final = V <ser> | X <ser> <relline> <col> | U <why>
+   Emit model (correspondence with emit.c through harness/C02/emit_wrap.c):
+     emit ...        -> see JanetModel/Emit/Cmd.lean -/
+import Driver.Util
+import JanetModel.Bytecode.Exec
+import JanetModel.Emit.Cmd
+open Driver JanetModel.Bytecode.Exec
+
+structure DState where
+  defs : Array FuncDef := #[]
+
+def hexNat (s : String) : Nat := s.toList.foldl (fun acc c => acc * 16 + (hexVal c).getD 0) 0
+
+def hexStr (s : String) : String := String.ofList (((bytesOfHex s).getD []).map Char.ofNat)
+
+/-- parse one value in prefix notation; returns the value and the remaining tokens -/
+partial def parseValue : List String → Value × List String
+  | [] => (.nil, [])
+  | tok :: rest =>
+    let body := (tok.drop 1).toString
+    match tok.front with
+    | 'N' => (.nil, rest)
+    | 'T' => (.bool true, rest)
+    | 'F' => (.bool false, rest)
+    | 'n' => (.num (Float.ofBits (UInt64.ofNat (hexNat body))), rest)
+    | 's' => (.str (hexStr body), rest)
+    | 'y' => (.sym (hexStr body), rest)
+    | 'k' => (.kw (hexStr body), rest)
+    | 'c' => (.cfun (hexStr body), rest)
+    | 't' | 'b' =>
+      let n := body.toNat!
+      let (xs, rest') := (List.range n).foldl (fun (acc : List Value × List String) _ =>
+        let (v, r) := parseValue acc.2
+        (acc.1 ++ [v], r)) ([], rest)
+      (.tuple xs (tok.front == 'b'), rest')
+    | 'q' =>
+      let n := body.toNat!
+      let (xs, rest') := (List.range (2 * n)).foldl (fun (acc : List Value × List String) _ =>
+        let (v, r) := parseValue acc.2
+        (acc.1 ++ [v], r)) ([], rest)
+      (mkStruct #[] xs, rest')
+    | _ => (.cfun "<unsupported-constant>", rest)
+
+partial def parseValues (toks : List String) (acc : Array Value) : Array Value :=
+  match toks with
+  | [] => acc
+  | _ => let (v, rest) := parseValue toks; parseValues rest (acc.push v)
+
+partial def pairInts : List String → List (Int × Int)
+  | a :: b :: rest => (a.toInt!, b.toInt!) :: pairInts rest
+  | _ => []
+
+def modLast (s : DState) (f : FuncDef → FuncDef) : DState :=
+  if s.defs.size == 0 then s else { s with defs := s.defs.modify (s.defs.size - 1) f }
+
+def step (s : DState) (toks : List String) : DState × String :=
+  match toks with
+  | "emit" :: rest => (s, JanetModel.Emit.emitCmd rest)
+  | ["prog", _] => ({ defs := #[] }, "ok")
+  | ["def", _, ar, mn, mx, sl, va, sa] =>
+    ({ s with defs := s.defs.push { arity := ar.toNat!, minArity := mn.toNat!, maxArity := mx.toNat!, slotcount := sl.toNat!,
+                                    vararg := va == "1", structarg := sa == "1" } }, "ok")
+  | "code" :: ws => (modLast s (fun d => { d with code := (ws.map hexNat).toArray }), "ok")
+  | "consts" :: ts => (modLast s (fun d => { d with consts := parseValues ts #[] }), "ok")
+  | "defs" :: is => (modLast s (fun d => { d with defs := (is.map String.toNat!).toArray }), "ok")
+  | "envs" :: is => (modLast s (fun d => { d with envs := (is.map String.toInt!).toArray }), "ok")
+  | "smap" :: is => (modLast s (fun d => { d with smap := (pairInts is).toArray }), "ok")
+  | ["bitset", b] =>
+    (modLast s (fun d => { d with bitset := if b == "-" then none else if b == "e" then some #[] else some (b.toList.map (· == '1')).toArray }), "ok")
+  | ["run", _, e0] =>
+    let p : Program := { defs := s.defs }
+    let out := match runDiag p 400000 (initState p) with
+      | .inl why => "U " ++ why
+      | .inr (.ok _, st) => "V " ++ ser st.heap st.result ++ String.join (st.trace.toList.map ("\t" ++ ·))
+      | .inr (.err v pos, st) =>
+        "X " ++ serErr st.heap v ++ " " ++ toString (if pos.line == -1 then -1 else pos.line - e0.toInt!) ++ " " ++ toString pos.col
+          ++ String.join (st.trace.toList.map ("\t" ++ ·))
+      | .inr (.timeout, _) => "U timeout"
+    (s, out)
+  | "skip" :: _ => (s, "skip")
+  | _ => (s, "bad-op")
+
+def main : IO Unit := runLoop ({} : DState) step
